@@ -240,7 +240,9 @@ class FrameQueueFrag(FrameQueue):
                         # External data needs to be propagated back to update()
                         frame.header.message_type = NETWORK_EXT_DATA  # by reference
                     self._frags.header.message_type = frame.header.reserved
-                    return super().enqueue(self._frags)
+                    result = super().enqueue(self._frags)
+                    self._frags.header.reserved = 0  # the cached message is spent
+                    return result
                 return True
             # print("dropping fragment due to missing 1st fragment")
             return False
